@@ -251,16 +251,19 @@ func (s *fSlot) value(g *Gen, l int, optional bool) ieVal {
 	switch s.Store {
 	case "octet":
 		v.data = g.Bytes(1)
+		if g.Intn(4) == 0 {
+			v.data[0] = smallAlphabet[g.Intn(len(smallAlphabet))]
+		}
 	case "arr":
 		v.data = make([]byte, s.ArrN)
 		n := s.ArrN
 		if s.Span == "toLen" {
 			n = l
 		}
-		copy(v.data, g.Bytes(n))
+		copy(v.data, g.Content(n))
 	case "buf":
 		if s.Alloc {
-			v.data = g.Bytes(l)
+			v.data = g.Content(l)
 		}
 	}
 	return v
@@ -362,6 +365,10 @@ func init() {
 // table-driven decode inputs: every message x slot x probe length x truncation points, plus malformed streams
 func genCodecDec(g *Gen, w *bufio.Writer) {
 	for _, t := range tableSets(g.Facts) {
+		if len(g.Focus) > 0 {
+			genCodecDecFocus(g, w, t)
+			continue
+		}
 		genCodecDecT(g, w, t)
 	}
 }
@@ -606,6 +613,10 @@ func genCodecDecT(g *Gen, w *bufio.Writer, t *fTables) {
 // well-formed messages: enc lines (fields) + the table-rendered wire bytes as dec / rt4 / canon lines
 func genCodecEnc(g *Gen, w *bufio.Writer) {
 	for _, t := range tableSets(g.Facts) {
+		if len(g.Focus) > 0 {
+			genCodecEncFocus(g, w, t)
+			continue
+		}
 		genCodecEncT(g, w, t)
 	}
 }
@@ -683,6 +694,53 @@ func genCodecEncT(g *Gen, w *bufio.Writer, t *fTables) {
 			}
 			for r := 0; r < reps; r++ {
 				one(d.Family, &d, c, m, func(int) bool { return g.Intn(2) == 0 })
+			}
+		}
+	}
+	// constant fills (00.., ff..) of every lengthed element at every legal length: content-dependent handling of reserved / "not
+	// present" codings (an all-ones SD, a zero length indicator) is invisible to random content
+	for di := range t.Dispatch {
+		d := &t.Dispatch[di]
+		for _, c := range d.Decode {
+			m := t.msg(c.Msg)
+			if m == nil {
+				continue
+			}
+			nMan := len(m.DecMan)
+			for i := 0; i < nMan+len(m.DecOpt); i++ {
+				o := i >= nMan
+				var s *fSlot
+				if o {
+					s = &m.DecOpt[i-nMan]
+				} else {
+					s = &m.DecMan[i]
+				}
+				if !lengthed(s) {
+					continue
+				}
+				for _, l := range s.legalLens() {
+					if l > 300 {
+						continue
+					}
+					for _, f := range []byte{0x00, 0xff} {
+						cont := make([]byte, l)
+						for k := range cont {
+							cont[k] = f
+						}
+						man := mandatoryL(g, m, c.Const, d.TypeIndex, epdOf(d.Family), true)
+						opt := make([]*ieVal, len(m.DecOpt))
+						v := s.withContent(cont, o)
+						if o {
+							opt[i-nMan] = &v
+						} else {
+							man[i] = v
+						}
+						wire := renderMsg(m, man, opt)
+						fmt.Fprintf(w, "enc %s hdr=%s %s %s\n", d.Family, hexs(wire[:d.HeaderLen]), m.Name, fieldsStr(man, opt))
+						fmt.Fprintf(w, "canon %s\n", hexs(wire))
+						fmt.Fprintf(w, "dec plain %s\n", hexs(wire))
+					}
+				}
 			}
 		}
 	}
@@ -870,6 +928,48 @@ func genDispatchT(g *Gen, w *bufio.Writer, t *fTables) {
 			}
 		}
 	}
+	// a header that names no known type although a body is attached (all-zero header, zero type, zero discriminator): an error,
+	// whatever the body says about itself
+	for _, d := range t.Dispatch {
+		for _, c := range d.Decode {
+			m := t.msg(c.Msg)
+			if m == nil {
+				continue
+			}
+			man := mandatory(g, m, c.Const, d.TypeIndex, epdOf(d.Family))
+			wire := renderMsg(m, man, nil)
+			for v := 0; v < 4; v++ {
+				hdr := append([]byte{}, wire[:d.HeaderLen]...)
+				switch v {
+				case 0:
+					for k := range hdr {
+						hdr[k] = 0
+					}
+				case 1:
+					hdr[d.TypeIndex] = 0
+				case 2:
+					hdr[0] = 0
+				case 3:
+					for k := range hdr {
+						hdr[k] = 0
+					}
+					hdr[0] = byte(epdOf(d.Family))
+				}
+				fmt.Fprintf(w, "enc %s hdr=%s %s %s\n", d.Family, hexs(hdr), m.Name, fieldsStr(man, nil))
+			}
+		}
+	}
+	// a complete message of either family nested in a container element, with every low nibble of the single-octet mandatory
+	// elements (container type): exactly the outer body is populated
+	bases := allBases(g, t)
+	if g.Tier != "thorough" && len(bases) > 6 {
+		var few [][]byte
+		for k := 0; k < 6; k++ {
+			few = append(few, bases[(k*7+g.Intn(3))%len(bases)])
+		}
+		bases = few
+	}
+	genEntryFocusDec(g, w, t, bases)
 	fmt.Fprintln(w, "encnone")
 }
 
@@ -881,6 +981,28 @@ func init() {
 
 func genSpec(g *Gen, w *bufio.Writer) {
 	for _, t := range tableSets(g.Facts) {
+		if len(g.Focus) > 0 {
+			bases := allBases(g, t)
+			for _, ft := range focusTargets(g, t) {
+				m := ft.m
+				focusFamilies(g, t, ft, bases, func(man []ieVal, opt []*ieVal) {
+					sm := make([]ieVal, len(man))
+					for i := range man {
+						sm[i] = specValOf(&m.DecMan[i], man[i])
+					}
+					so := make([]*ieVal, len(opt))
+					for i := range opt {
+						if opt[i] != nil {
+							v := specValOf(&m.DecOpt[i], *opt[i])
+							so[i] = &v
+						}
+					}
+					fmt.Fprintf(w, "senc %s %s\n", m.Name, fieldsStr(sm, so))
+					fmt.Fprintf(w, "sdec %s %s\n", m.Name, hexs(renderMsg(m, man, opt)))
+				})
+			}
+			continue
+		}
 		for _, d := range t.Dispatch {
 			for _, c := range d.Decode {
 				m := t.msg(c.Msg)
@@ -896,13 +1018,15 @@ func genSpec(g *Gen, w *bufio.Writer) {
 	}
 }
 
-func genSpecMsg(g *Gen, w *bufio.Writer, m *fMsg, typ, ti, epd int) {
-	specVal := func(s *fSlot, v ieVal) ieVal {
-		if s.LenSize > 0 && s.Store == "arr" && s.Span == "toLen" && v.ln <= len(v.data) {
-			v.data = v.data[:v.ln]
-		}
-		return v
+func specValOf(s *fSlot, v ieVal) ieVal {
+	if s.LenSize > 0 && s.Store == "arr" && s.Span == "toLen" && v.ln <= len(v.data) {
+		v.data = v.data[:v.ln]
 	}
+	return v
+}
+
+func genSpecMsg(g *Gen, w *bufio.Writer, m *fMsg, typ, ti, epd int) {
+	specVal := specValOf
 	if typ >= 0 {
 		wrapMessages(g, m, typ, ti, epd, []int{-256, -65536}, func(man []ieVal, opt []*ieVal) {
 			sm := make([]ieVal, len(man))
